@@ -223,9 +223,25 @@ class Item(object):
         self.sexp, self.scope, self.params, self.sort = sexp, scope, params or [], sort
 
 
+class _Thunk(object):
+    """capture emulation: a let-bound term, re-read where the name is used"""
+
+    def __init__(self, sexp, scope, loc):
+        self.sexp, self.scope, self.loc = sexp, scope, loc
+
+
+class _QVar(object):
+    """capture emulation: a quantified variable is the SYMBOL (name, sort); what it denotes is what the
+    innermost quantifier over that symbol in force at the place of evaluation gives it"""
+
+    def __init__(self, name, sort):
+        self.key = (name, sort)
+
+
 class Reader(object):
     def __init__(self, text, flags=()):
         self.flags = frozenset(flags)
+        self._qdyn = {}
         self.env = Environment()
         self.tm = self.env.type_manager
         self.cmds = read_all(text, self.flags)
@@ -355,6 +371,7 @@ class Reader(object):
     # -- evaluation -----------------------------------------------------------------------------
     def value(self, item, I, param_values=None):
         loc = dict(zip([p for p, _ in item.params], param_values or []))
+        self._qdyn = {}
         try:
             return self.ev(item.sexp, item.scope, I, loc)
         except (TypeError, IndexError, AttributeError, ValueError, KeyError) as ex:
@@ -384,10 +401,13 @@ class Reader(object):
                 ps, ret, body, at = sc.defs[n]
                 return self.ev(body, at, I, {})
             if n in loc:
-                return loc[n]
+                return self._local(loc[n], I)
             if not x.quoted and n in ("true", "false"):
                 return n == "true"
             if n in sc.consts:
+                if "definefun-captures" in F and self._qdyn.get((n, sc.consts[n])):
+                    # the constant is the symbol a quantifier in force here binds: captured
+                    return self._qdyn[(n, sc.consts[n])][-1]
                 return I.value((n, sc.consts[n]))
             if n in sc.defs:
                 ps, ret, body, at = sc.defs[n]
@@ -440,7 +460,12 @@ class Reader(object):
                         new[self.symname(b[0])] = self.ev(b[1], sc, I, new)
                 else:
                     for b in x[1]:
-                        new[self.symname(b[0])] = self.ev(b[1], sc, I, loc)
+                        v = self.ev(b[1], sc, I, loc)
+                        if "definefun-captures" in F:
+                            # pySMT binds the name to the TERM: the symbols in it are captured by the
+                            # quantifiers in force where the name is used
+                            v = _Thunk(b[1], sc, loc)
+                        new[self.symname(b[0])] = v
                 return self.ev(x[2], sc, I, new)
             if n in ("forall", "exists"):
                 vs = [(self.symname(b[0]), self.sort(b[1], sc)) for b in x[1]]
@@ -460,6 +485,22 @@ class Reader(object):
                 if total > 20000:
                     raise Unsupported("quantifier instance count")
                 res = (n == "forall")
+                if "definefun-captures" in F:
+                    for inst in itertools.product(*doms):
+                        new = dict(loc)
+                        for (v, t), val in zip(vs, inst):
+                            new[v] = _QVar(v, t)
+                            self._qdyn.setdefault((v, t), []).append(val)
+                        try:
+                            b = self.ev(x[2], sc, I, new)
+                        finally:
+                            for v, t in vs:
+                                self._qdyn[(v, t)].pop()
+                        if n == "forall" and b is not True:
+                            return False
+                        if n == "exists" and b is True:
+                            return True
+                    return res
                 for inst in itertools.product(*doms):
                     new = dict(loc)
                     new.update(zip([v for v, _ in vs], inst))
@@ -484,7 +525,7 @@ class Reader(object):
                 t = self.sort(x[2], sc)
                 nm = x[1].name
                 if nm in loc:
-                    return loc[nm]
+                    return self._local(loc[nm], I)
                 if nm in sc.consts:
                     if sc.consts[nm] != t:
                         raise Reject("sort", "as")
@@ -524,6 +565,13 @@ class Reader(object):
         if "undeclared-as-string" in F:
             raise Unsupported("application of an unknown name")
         raise Reject("undeclared", n)
+
+    def _local(self, v, I):
+        if isinstance(v, _Thunk):
+            return self.ev(v.sexp, v.scope, I, v.loc)
+        if isinstance(v, _QVar):
+            return self._qdyn[v.key][-1]
+        return v
 
     def _ev_capture(self, x, sc, I, loc, thunks, csc, cloc, bound):
         if isinstance(x, Sym) and x.name in thunks and x.name not in loc:
